@@ -21,4 +21,4 @@ for r in /tmp/confirm/*.result; do
     echo "NOT CONFIRMED: $(cat $r)"
   fi
 done
-[ -n "$new" ] && /venv/bin/python tools/seed_matrix.py $new
+[ -n "$new" ] && /venv/bin/python tools/matrix_par.py --seeds --all-props -j 6 $new
